@@ -54,6 +54,15 @@ def check_msg(d, conts, t2, data_as='list'):
         out.append(fail('wellformed', f'{d!r}: {got[:12]}', type=d['type']))
     if d['type'] == 'sysex' and (got[0] != 0xF0 or got[-1] != 0xF7):
         out.append(fail('wellformed', f'sysex framing {got[:4]}..{got[-2:]}', type='sysex'))
+    # what bytes() / bin() hand out belongs to the caller: scribbling on it must not change later encodings
+    scratch = m.bytes()
+    scratch.append(0x55)
+    scratch[0] = 0
+    m.bin().extend(b'\x01\x02')
+    again = mido.Message(d['type'], **{k: (list(v) if k == 'data' else v) for k, v in d.items() if k != 'type'}).bytes()
+    if m.bytes() != want or again != want:
+        out.append(fail('shared-encoding', f'{d!r}: bytes() after the caller modified an earlier result: {m.bytes()[:8]} / '
+                                           f'{again[:8]}, expected {want[:8]}', type=d['type']))
     if len(m) != len(got) or len(m) != R.ref_len(d):
         out.append(fail('len', f'{d!r}: len(m)={len(m)} len(bytes)={len(got)}', type=d['type']))
     if m.bin() != bytearray(want) or not isinstance(m.bin(), bytearray):
